@@ -66,6 +66,12 @@ func TestBoundedC11(t *testing.T) {
 		{"Account-shaped map", &bC11Acct{Nonce: 1, Tokens: map[[20]byte]*big.Int{{1}: big.NewInt(5), {1, 0, 2}: big.NewInt(0), {0xff}: new(big.Int).Lsh(big.NewInt(1), 200)}}, func() interface{} { return new(bC11Acct) }},
 		{"Block", &Block{Header: &Header{ChainID: "c", Height: 2}, Data: &Data{}, LastCommit: &Commit{}}, func() interface{} { return new(Block) }},
 	}
+	dve := &DuplicateVoteEvidence{PubKey: pk.PubKey(), VoteA: v, VoteB: v}
+	evBlock := &Block{Header: &Header{ChainID: "c", Height: 3}, Data: &Data{}, LastCommit: &Commit{}, Evidence: EvidenceData{Evidence: EvidenceList{dve}}}
+	samples = append(samples,
+		sample{"Block with evidence (Evidence interface inside)", evBlock, func() interface{} { return new(Block) }},
+		sample{"Receipt-like log list", &[]*Log{{Address: common.Address{1}, Topics: []common.Hash{h}, Data: nil}}, func() interface{} { return new([]*Log) }},
+	)
 	nfail, cases := 0, 0
 	fail := func(format string, a ...interface{}) {
 		nfail++
@@ -146,6 +152,74 @@ func TestBoundedC11(t *testing.T) {
 				}
 				_ = reflect.TypeOf(o)
 			}()
+		}
+	}
+	// values handed around as registered interfaces (type prefix): Evidence, PubKey, Signature
+	{
+		var ev Evidence = dve
+		bz, err := ser.EncodeToBytesWithType(&ev)
+		cases++
+		func() {
+			defer func() {
+				if r := recover(); r != nil {
+					fail("decoding an Evidence interface value panics: %v", r)
+				}
+			}()
+			var ev2 Evidence
+			if err != nil {
+				fail("Evidence interface: encode: %v", err)
+			} else if err := ser.DecodeBytesWithType(bz, &ev2); err != nil {
+				fail("Evidence interface: decode of its own encoding: %v", err)
+			} else if b2, _ := ser.EncodeToBytesWithType(&ev2); !bytes.Equal(bz, b2) {
+				fail("Evidence interface: re-encoding differs")
+			}
+		}()
+		var pub crypto.PubKey = pk.PubKey()
+		bz, err = ser.EncodeToBytesWithType(&pub)
+		cases++
+		func() {
+			defer func() {
+				if r := recover(); r != nil {
+					fail("decoding a PubKey interface value panics: %v", r)
+				}
+			}()
+			var pub2 crypto.PubKey
+			if err != nil {
+				fail("PubKey interface: encode: %v", err)
+			} else if err := ser.DecodeBytesWithType(bz, &pub2); err != nil || pub2 == nil || !pub2.Equals(pub) {
+				fail("PubKey interface: round trip failed: %v", err)
+			}
+		}()
+	}
+	// size sweep: every payload size around the short/long header boundaries, as a byte string, as a list of
+	// small integers and as a nested list; Encode(io.Writer) and EncodeToBytes must agree
+	type bSweep struct {
+		A []byte
+		B []uint16
+		C [][]byte
+	}
+	for n := 0; n <= 300; n++ {
+		in := &bSweep{A: bytes.Repeat([]byte{0x81}, n), B: make([]uint16, n%70), C: [][]byte{bytes.Repeat([]byte{1}, n%60), {}}}
+		for i := range in.B {
+			in.B[i] = uint16(i * 5)
+		}
+		bz, err := ser.EncodeToBytes(in)
+		cases++
+		if err != nil {
+			fail("sweep n=%d: encode: %v", n, err)
+			continue
+		}
+		var wbuf bytes.Buffer
+		if err := ser.Encode(&wbuf, in); err != nil || !bytes.Equal(wbuf.Bytes(), bz) {
+			fail("sweep n=%d: Encode(io.Writer) and EncodeToBytes disagree (err %v)", n, err)
+		}
+		out := new(bSweep)
+		if err := ser.DecodeBytes(bz, out); err != nil {
+			fail("sweep n=%d: decoding its own encoding: %v", n, err)
+			continue
+		}
+		if b2, _ := ser.EncodeToBytes(out); !bytes.Equal(bz, b2) {
+			fail("sweep n=%d: re-encoding differs", n)
 		}
 	}
 	fmt.Printf("BOUNDED-CASES: %d decodings (%d sample values of consensus/storage types, %d seeded mutants each: bit flips, truncations, byte replacements, injected long-form headers, random tails), %d failures\n", cases, len(samples), muts, nfail)
